@@ -1,5 +1,6 @@
 (* Byte-string specifications (same grammar as harness/rs/src/bytespec.rs) and
    conversions between OCaml ints and the extracted N / positive / nat. *)
+module BigZ = Z
 open Model
 
 let rec pos_of_int (i : int) : positive =
@@ -18,17 +19,17 @@ let int_of_n = function N0 -> 0 | Npos p -> int_of_pos p
 
 (* decimal strings <-> N for values beyond OCaml's 63-bit ints *)
 let n_of_string (s : string) : n =
-  let z = Z.of_string s in
-  let rec go z = if Z.equal z Z.one then XH
-    else if Z.is_even z then XO (go (Z.shift_right z 1)) else XI (go (Z.shift_right z 1)) in
-  if Z.equal z Z.zero then N0 else Npos (go z)
+  let z = BigZ.of_string s in
+  let rec go z = if BigZ.equal z BigZ.one then XH
+    else if BigZ.is_even z then XO (go (BigZ.shift_right z 1)) else XI (go (BigZ.shift_right z 1)) in
+  if BigZ.equal z BigZ.zero then N0 else Npos (go z)
 
 let string_of_n (v : n) : string =
   let rec go = function
-    | XH -> Z.one
-    | XO p -> Z.shift_left (go p) 1
-    | XI p -> Z.succ (Z.shift_left (go p) 1) in
-  match v with N0 -> "0" | Npos p -> Z.to_string (go p)
+    | XH -> BigZ.one
+    | XO p -> BigZ.shift_left (go p) 1
+    | XI p -> BigZ.succ (BigZ.shift_left (go p) 1) in
+  match v with N0 -> "0" | Npos p -> BigZ.to_string (go p)
 
 let rec nat_of_int (i : int) : nat = if i = 0 then O else S (nat_of_int (i - 1))
 
